@@ -564,3 +564,193 @@ func (c *Ctx) checkElision(o *obs, F *ssa.Function, bi int) {
 		o.add(OK, c.fname(F)+"/sort elision", relPath(c, F.Pos()), "the sort is never elided")
 	}
 }
+
+// ---------------------------------------------------------------- ADP4
+
+// bufferBases walks a []byte value back to the storage it is built on:
+// append(a, ...) and a[i:j] share a's storage; conversions from strings, make,
+// literals and nil are fresh. Library callees are followed with their
+// parameters bound to the caller's arguments (a chain of environments).
+type bufEnv struct {
+	bind   map[*ssa.Parameter]ssa.Value
+	parent *bufEnv
+}
+
+func (c *Ctx) bufferBases(v ssa.Value, env *bufEnv, depth int, seen map[ssa.Value]int, out *[]ssa.Value) {
+	if v == nil || seen[v] > 3 || depth > 8 {
+		return
+	}
+	seen[v]++
+	switch x := v.(type) {
+	case *ssa.Phi:
+		for _, e := range x.Edges {
+			c.bufferBases(e, env, depth, seen, out)
+		}
+	case *ssa.Slice:
+		c.bufferBases(x.X, env, depth, seen, out)
+	case *ssa.ChangeType:
+		c.bufferBases(x.X, env, depth, seen, out)
+	case *ssa.Convert:
+		// string -> []byte allocates
+	case *ssa.Parameter:
+		if env != nil {
+			if b, ok := env.bind[x]; ok {
+				c.bufferBases(b, env.parent, depth, seen, out)
+			}
+		}
+	case *ssa.Extract:
+		if call, ok := x.Tuple.(*ssa.Call); ok {
+			c.bufferBasesCall(call, x.Index, env, depth, seen, out)
+		}
+	case *ssa.Call:
+		c.bufferBasesCall(x, 0, env, depth, seen, out)
+	case *ssa.UnOp:
+		if x.Op == token.MUL {
+			if al, ok := x.X.(*ssa.Alloc); ok {
+				for _, s := range storesTo(al) {
+					c.bufferBases(s, env, depth, seen, out)
+				}
+				return
+			}
+			*out = append(*out, v) // load of a field / global / element
+		}
+	}
+}
+
+func (c *Ctx) bufferBasesCall(call *ssa.Call, idx int, env *bufEnv, depth int, seen map[ssa.Value]int, out *[]ssa.Value) {
+	cc := call.Common()
+	if b, ok := cc.Value.(*ssa.Builtin); ok {
+		if b.Name() == "append" {
+			c.bufferBases(cc.Args[0], env, depth, seen, out)
+		}
+		return
+	}
+	g := staticCallee(call)
+	if g == nil {
+		return
+	}
+	if g.Pkg != nil && g.Pkg.Pkg.Path() == "github.com/google/orderedcode" && g.Name() == "Append" {
+		c.bufferBases(cc.Args[0], env, depth, seen, out)
+		return
+	}
+	g = c.declared(g)
+	if !c.IsLib(g) || len(g.Blocks) == 0 {
+		return
+	}
+	nenv := &bufEnv{bind: map[*ssa.Parameter]ssa.Value{}, parent: env}
+	for i, p := range g.Params {
+		if i < len(cc.Args) {
+			nenv.bind[p] = cc.Args[i]
+		}
+	}
+	for _, ret := range returnsOf(g) {
+		if rv, ok := returnedValue(ret, idx); ok {
+			c.bufferBases(rv, nenv, depth+1, seen, out)
+		}
+	}
+}
+
+// ADP4: byte slices handed to Tx.Set/Tx.Delete are not built on storage that
+// outlives the call (a struct field or package variable used as scratch buffer).
+func ruleADP4(c *Ctx) []Ob {
+	o := newObs(c, "ADP4")
+	for _, fn := range c.LibFuncs {
+		if strings.HasPrefix(c.pkgRel(fn), "store/") {
+			continue
+		}
+		allCalls(fn, func(call ssa.CallInstruction) {
+			var args []ssa.Value
+			switch {
+			case c.isInvokeOf(call, "store", "Tx", "Set"):
+				args = call.Common().Args[:2]
+			case c.isInvokeOf(call, "store", "Tx", "Delete"):
+				args = call.Common().Args[:1]
+			default:
+				return
+			}
+			key := c.fname(fn) + "/" + call.Common().Method.Name() + " arguments not reused"
+			pos := relPath(c, call.Pos())
+			bad := ""
+			for _, a := range args {
+				var bases []ssa.Value
+				c.bufferBases(a, nil, 0, map[ssa.Value]int{}, &bases)
+				for _, b := range bases {
+					if _, f, n := fieldLoad(b); f != "" {
+						if c.libNamedIs(n, "store", "Item") {
+							continue // the cursor's current item: owned by the store
+						}
+						bad = "field " + namedName(n) + "." + f
+					} else if g := globalLoad(b); g != nil {
+						bad = "package variable " + g.Name()
+					}
+				}
+			}
+			if bad != "" {
+				o.add(VIOLATED, key, pos, "the byte slice passed to the store is built on %s, storage that the next call overwrites: badger keeps the caller's slice until Commit (bbolt copies it), so earlier writes/deletes of the transaction are silently redirected on one backend only", bad)
+			} else {
+				o.add(OK, key, pos, "key/value slices are freshly allocated per call")
+			}
+		})
+	}
+	return o.list
+}
+
+// ---------------------------------------------------------------- KEY6
+
+// KEY6: every value encoded into a key is self-delimiting: orderedcode.Append is
+// never given a TrailingString (raw, unterminated), because index keys continue
+// with the document id after the value.
+func ruleKEY6(c *Ctx) []Ob {
+	o := newObs(c, "KEY6")
+	for _, fn := range c.LibFuncs {
+		allCalls(fn, func(call ssa.CallInstruction) {
+			g := staticCallee(call)
+			if g == nil || g.Pkg == nil || g.Pkg.Pkg.Path() != "github.com/google/orderedcode" || g.Name() != "Append" {
+				return
+			}
+			key := c.fname(fn) + "/orderedcode.Append items"
+			pos := relPath(c, call.Pos())
+			bad := ""
+			items, ok := c.keys().sprintfArgs(call.Common().Args[1])
+			if !ok {
+				o.add(UNDECIDED, key, pos, "the items passed to orderedcode.Append are not a literal argument list")
+				return
+			}
+			var walk func(v ssa.Value, seen map[ssa.Value]bool)
+			walk = func(v ssa.Value, seen map[ssa.Value]bool) {
+				if v == nil || seen[v] {
+					return
+				}
+				seen[v] = true
+				if n, isNamed := v.Type().(*types.Named); isNamed && n.Obj().Pkg() != nil && n.Obj().Pkg().Path() == "github.com/google/orderedcode" && n.Obj().Name() == "TrailingString" {
+					bad = "orderedcode.TrailingString (raw bytes without terminator)"
+				}
+				switch x := v.(type) {
+				case *ssa.Phi:
+					for _, e := range x.Edges {
+						walk(e, seen)
+					}
+				case *ssa.MakeInterface:
+					walk(x.X, seen)
+				case *ssa.ChangeInterface:
+					walk(x.X, seen)
+				case *ssa.UnOp:
+					if al, ok := x.X.(*ssa.Alloc); ok && x.Op == token.MUL {
+						for _, sv := range storesTo(al) {
+							walk(sv, seen)
+						}
+					}
+				}
+			}
+			for _, it := range items {
+				walk(it, map[ssa.Value]bool{})
+			}
+			if bad != "" {
+				o.add(VIOLATED, key, pos, "a key component is encoded as %s: it is not self-delimiting, yet index keys continue with the document id, so for prefix-related values (\"New York\" / \"New York City\") key order no longer equals value order and one value's entries are a byte-prefix of another's", bad)
+			} else {
+				o.add(OK, key, pos, "every encoded item is self-delimiting")
+			}
+		})
+	}
+	return o.list
+}
